@@ -200,6 +200,12 @@ pub(crate) fn validate_username(username: &str) -> Result<(), ValidationError> {
         Err(ValidationError::new(
             "Username must not have channel prefix.",
         ))
+    } else if username.is_empty()
+        || username.contains(|c: char| c.is_whitespace() || c.is_control() || c == '!' || c == '@')
+    {
+        Err(ValidationError::new(
+            "Username must not be empty and must not contains spaces, '!' or '@'.",
+        ))
     } else if !username.contains('.') && !username.contains(':') && !username.contains(',') {
         Ok(())
     } else {
